@@ -22,6 +22,8 @@ def declare(c):
     c.rule('C06.R5', 'the enter script is emitted first, once, exactly on the paths that open an episode', floor=4)
     c.rule('C06.R6', 'mode semantics: first keeps the first instance in place, last/merge move the entry to the end, '
                      'merge updates per parameter letter, exclude stores nothing; every mode returns IGNORE', floor=8)
+    c.rule('C06.R7', 'dispatch: a code is deferred exactly when an episode is open and it is configured; the mode applied is '
+                     'the configured one; outside an episode configured codes pass through untouched', floor=3)
     c.rule('C06.R8', 'configured script lists are never returned or mutated (always copied into a fresh list)', floor=4)
     c.rule('C06.R9', '_splitGcodeScript returns None or a non-empty list of non-empty lines', floor=2)
 
@@ -167,6 +169,32 @@ def alias_rule_paths(col, gcode, paths, I):
         if isinstance(p.ret, Obj) and p.ret.oid in scripts:
             col.report('C06.R8', 'GcodeHandlers.handleGcode', 'configured script list returned',
                        'the configured script list object itself is handed to the caller')
+        if gcode == 'M999':
+            col.instance('C06.R7', (f.pre_excluding, f.describe()))
+            cfg = [k for k in p.st.dom if k[0] == 'null' and 'cfg:extendedExcludeGcodes' in repr(k)]
+            configured = None
+            for k in cfg:
+                configured = (p.st.dom[k] == frozenset([False]))
+            mode_consulted = any(k[0] == 'valueof' and 'cfg:extendedExcludeGcodes' in repr(k) and '.mode' in repr(k) for k in p.st.dom)
+            mutated = any(e[0].startswith('map-') and str(e[1]).endswith('pendingCommands') for e in p.st.trace)
+            if f.pre_excluding is not True:
+                if f.kind != 'none' or mutated:
+                    col.report('C06.R7', 'ExcludeRegionState.processExtendedGcode', 'outside an episode -> %s' % f.describe(),
+                               'a configured code is withheld or recorded although no episode is open')
+            elif configured is True:
+                if f.kind != 'ignore':
+                    col.report('C06.R7', 'ExcludeRegionState.processExtendedGcode', 'configured code inside an episode -> %s' % f.describe(),
+                               'a code configured for deferral reaches the printer during an episode')
+                if not mode_consulted and mutated:
+                    col.report('C06.R7', 'ExcludeRegionState.processExtendedGcode', 'mode not taken from the configuration',
+                               'the deferral mode applied is not the one configured for the code')
+            elif configured is False:
+                if f.kind != 'none' or mutated:
+                    col.report('C06.R7', 'ExcludeRegionState.processExtendedGcode', 'unconfigured code inside an episode -> %s' % f.describe(),
+                               'a code without deferral configuration must pass through')
+            elif f.pre_excluding is True and f.kind != 'none':
+                col.report('C06.R7', 'ExcludeRegionState.processExtendedGcode', 'configuration not consulted',
+                           'a code is withheld without looking it up in the configured codes')
         # enter script only on opening paths, at most once, first
         flat = [sorted(set(classify(a) for a in live_alts(p.st, e)))[0] for e in f.elems]
         n = sum(1 for k in flat if k.startswith('star:enterScript'))
